@@ -160,6 +160,26 @@ theorem checked_sub_exact (a b : Nat) (_ha : a < U256) (_hb : b < U256) :
     checkedSub a b = if b ≤ a then some (a - b) else none := by
   simp [checkedSub, subIsChecked]
 
+/-- **CLI totals are exact sums.** Whatever the split between events consumed before and after the
+completion signal (a scheduling choice of `tokio::select!`), the reported total is the exact sum of all
+upload costs, as long as that sum is representable. -/
+theorem cli_summary_exact (l d : List Nat) (h : (l ++ d).sum < U256) :
+    cliSummary l d = (l ++ d).sum := by
+  have hacc : cliSummaryAccumulates = true := by decide
+  have key : ∀ (xs : List Nat) (acc : Nat), acc + xs.sum < U256 →
+      xs.foldl (fun (a x : Nat) => (a + x) % U256) acc = acc + xs.sum := by
+    intro xs
+    induction xs with
+    | nil => intro acc _; simp
+    | cons x xs ih =>
+      intro acc hacc
+      simp only [List.foldl_cons, List.sum_cons] at hacc ⊢
+      rw [Nat.mod_eq_of_lt (by omega), ih (acc + x) (by omega)]
+      omega
+  unfold cliSummary
+  simp only [hacc, ↓reduceIte, List.sum_append] at h ⊢
+  rw [key l 0 (by omega), Nat.zero_add, key d l.sum (by omega)]
+
 /-! ## Non-vacuity: concrete instances of the hypotheses and of both outcomes -/
 
 example : parse (display 1) = .ok 1 := parse_display 1 (by unfold U256; decide)
@@ -187,3 +207,4 @@ end SafeNet.Props.C16
 #print axioms SafeNet.Props.C16.parse_never_wraps
 #print axioms SafeNet.Props.C16.checked_add_exact
 #print axioms SafeNet.Props.C16.checked_sub_exact
+#print axioms SafeNet.Props.C16.cli_summary_exact
